@@ -115,6 +115,10 @@ func (g *reg) spiral() {
 	}
 	// examples/spiral
 	mk("ex:spiral", true, 1.0, 20.0, 0.25*sdf.Pi, 8*sdf.Tau, 1.0)
+	// spirals with a negative polar radius at an end (through the centre, negative angles, negative slope)
+	mk("neg:through-centre", false, 1.0, -10.0, 0, 2*sdf.Tau, 0.5)
+	mk("neg:slope", false, -1.0, 0, 0.25*sdf.Pi, 3*sdf.Tau, 1.0)
+	mk("neg:angles", false, 0.5, 2.0, -3*sdf.Tau, -0.5*sdf.Tau, 0.4)
 	for i := 0; i < nVariants+1; i++ {
 		a := g.u(0.2, 3)
 		start := g.u(0, sdf.Tau)
